@@ -119,8 +119,8 @@ Proof. intros [H1 H2] H. cbn [fst snd] in *. split; cbn [fst snd]; [congruence|e
 Lemma quiet_cons n n1 o1 x : noans x -> quiet n (n1, o1) -> quiet n (n1, x :: o1).
 Proof. intros Hx [H1 H2]. split; [exact H1|constructor; assumption]. Qed.
 
-Lemma record_answer_aw n h e : n_app_waiting (record_answer n h e) = n_app_waiting n.
-Proof. unfold record_answer. destruct (List.find _ (n_origin_waiting n)) as [[[a b] o]|]; reflexivity. Qed.
+Lemma record_answer_aw n k h e : n_app_waiting (record_answer n k h e) = n_app_waiting n.
+Proof. unfold record_answer. destruct (List.find _ (n_origin_waiting n)) as [[[[k0 a] b] o]|]; reflexivity. Qed.
 
 Lemma send_message_aw n cid m : n_app_waiting (fst (send_message n cid m)) = n_app_waiting n.
 Proof.
